@@ -1,5 +1,5 @@
 use super::field_utils::parse_party_identifier;
-use super::swift_utils::parse_bic;
+use super::swift_utils::{ensure_ascii, parse_bic};
 use crate::errors::ParseError;
 use crate::traits::SwiftField;
 use serde::{Deserialize, Serialize};
@@ -31,6 +31,7 @@ impl SwiftField for Field51A {
     where
         Self: Sized,
     {
+        ensure_ascii(input, "Field 51")?;
         let mut remaining = input;
         let mut party_identifier = None;
 
